@@ -70,7 +70,9 @@ Steered ==
   \E kn \in {RandomElement(Bag)} :
      /\ KindStep(kn[1])
      \* (a delete that is refused because its cascade reaches a system entity is rare and always kept)
-     /\ (last'.res = "fail" /\ kn[1] \notin {"callerError", "commit"} /\ ~(kn[1] \in {"deleteTeam", "deleteWhere"} /\ "system" \in last'.app))
+     \* (likewise an update refused for a value another entity holds: the rejection that is raised after the write)
+     /\ (last'.res = "fail" /\ kn[1] \notin {"callerError", "commit"} /\ ~(kn[1] \in {"deleteTeam", "deleteWhere"} /\ "system" \in last'.app)
+           /\ ~(kn[1] = "update" /\ last'.app = {"dup"}))
            => RandomElement(1..FailOneIn) = 1
 
 \* (the simulator evaluates invariants on every successor it generates, not only on the one it picks:
